@@ -9,14 +9,13 @@ Local Open Scope N_scope.
 
 (* premises about the wire level that the specification's value universe does not carry:
    string bytes are bytes; signature strings (values of type g and variant signatures) pass the
-   C automaton (its equivalence with the grammar is not yet a theorem); arrays of fixed-size
-   elements (the validator's fast path) are excluded from this theorem unless empty *)
+   C automaton (its equivalence with the grammar is not yet a theorem) *)
 Fixpoint wire_ok (v : val) : bool :=
   match v with
   | VNum _ _ => true
   | VStr c s => all_bytes s && (negb (c =? 103) || validate_signature s)
   | VArr et vs => (ty_alignment et =? spec_align et) && ((spec_align et =? 1) || (spec_align et =? 2) || (spec_align et =? 4) || (spec_align et =? 8)) &&
-                  (match vs with [] => true | _ => negb (ty_is_fixed et) end) && forallb wire_ok vs
+                  forallb wire_ok vs
   | VStruct fs => forallb wire_ok fs
   | VDictE k x => wire_ok k && wire_ok x
   | VVar t x => validate_signature (print_ty t) && wire_ok x
@@ -143,6 +142,67 @@ Proof.
     rewrite N.add_0_r. reflexivity.
 Qed.
 
+(* ---- arrays of fixed-size elements: the validator's fast path ----------------------- *)
+Lemma aligned_no_pad p a : (a = 1 \/ a = 2 \/ a = 4 \/ a = 8) -> p mod a = 0 -> pad_amount p a = 0.
+Proof. intros [-> | [-> | [-> | -> ]]] H; unfold pad_amount; lia. Qed.
+
+Lemma aligned_after_pad p a : (a = 1 \/ a = 2 \/ a = 4 \/ a = 8) -> (p + pad_amount p a) mod a = 0.
+Proof. intros [-> | [-> | [-> | -> ]]]; unfold pad_amount; lia. Qed.
+
+Lemma aligned_step p a : (a = 1 \/ a = 2 \/ a = 4 \/ a = 8) -> p mod a = 0 -> (p + a) mod a = 0.
+Proof. intros [-> | [-> | [-> | -> ]]] H; lia. Qed.
+
+(* all elements are numbers of the fixed-size code c *)
+Fixpoint nums_of (vs : list val) : list N := match vs with VNum _ n :: r => n :: nums_of r | _ => [] end.
+
+Lemma fixed_elems le c sz : fixed_size c = Some sz -> type_fixed c = true ->
+  forall vs depth start, start mod sz = 0 -> wfsb le vs depth start = true ->
+    forallb (fun x => ty_eqb (ty_of_val x) (TBasic c)) vs = true ->
+    encs le vs start = flat_map (fun n => bytes_of le (N.to_nat sz) n) (nums_of vs) /\
+    nlen (encs le vs start) = N.of_nat (length vs) * sz /\ length (nums_of vs) = length vs /\
+    Forall (fun n => n < 256 ^ sz /\ (c = 98 -> n <= 1)) (nums_of vs).
+Proof.
+  intros Hsz Hfx. destruct (fixed_tables c sz Hsz) as (_ & _ & Hs).
+  induction vs as [|x r IH]; intros depth start Hal Hw Ht.
+  - cbn. repeat split; try lia; try constructor.
+  - cbn [wfsb] in Hw. apply andb_true_iff in Hw. destruct Hw as [Hwx Hwr].
+    cbn [forallb] in Ht. apply andb_true_iff in Ht. destruct Ht as [Htx Htr]. apply ty_eqb_eq in Htx.
+    destruct x as [c' n|c' s0| | | | ]; cbn [ty_of_val] in Htx; try discriminate.
+    + inversion Htx; subst c'. cbn [wfb] in Hwx. apply andb_true_iff in Hwx. destruct Hwx as [_ Hwx]. rewrite Hsz in Hwx.
+      apply andb_true_iff in Hwx. destruct Hwx as [Hn Hb].
+      assert (He : enc le (VNum c n) start = bytes_of le (N.to_nat sz) n).
+      { rewrite enc_num, Hsz. rewrite (aligned_no_pad start sz Hs Hal). reflexivity. }
+      assert (Hl : nlen (enc le (VNum c n) start) = sz) by (rewrite He, bytes_of_length; lia).
+      rewrite Hl in Hwr.
+      destruct (IH depth (start + sz) (aligned_step start sz Hs Hal) Hwr Htr) as (E1 & E2 & E3 & E4).
+      cbn [encs nums_of flat_map length]. rewrite Hl, He, E1. repeat split.
+      * rewrite nlen_app, bytes_of_length. rewrite <- E1, E2. lia.
+      * lia.
+      * constructor; [split; lia | exact E4].
+    + (* a string-like value cannot have a fixed-size type code *)
+      inversion Htx; subst c'. exfalso. cbn [wfb] in Hwx. apply andb_true_iff in Hwx. destruct Hwx as [_ Hwx].
+      destruct (c =? 115) eqn:E1; [apply N.eqb_eq in E1; subst c; vm_compute in Hfx; discriminate|].
+      destruct (c =? 111) eqn:E2; [apply N.eqb_eq in E2; subst c; vm_compute in Hfx; discriminate|].
+      destruct (c =? 103) eqn:E3; [apply N.eqb_eq in E3; subst c; vm_compute in Hfx; discriminate|discriminate].
+Qed.
+
+Lemma bool_loop le : forall ns fuel p rest, Forall (fun n => n < 256 ^ 4 /\ (98 = 98 -> n <= 1)) ns -> (length ns < fuel)%nat ->
+  bool_array_loop fuel le (curof p (flat_map (fun n => bytes_of le 4 n) ns ++ rest)) (p + N.of_nat (length ns) * 4)
+  = inl (curof (p + N.of_nat (length ns) * 4) rest).
+Proof.
+  induction ns as [|n r IH]; intros fuel p rest HF Hf; destruct fuel as [|fuel]; try lia.
+  - cbn [bool_array_loop flat_map app length curof cpos]. replace (p <? p + N.of_nat 0 * 4) with false by lia. f_equal. f_equal. lia.
+  - inversion HF as [|? ? [Hn Hb] HF']; subst. cbn [bool_array_loop flat_map length]. cbn [curof cpos].
+    replace (p <? p + N.of_nat (S (length r)) * 4) with true by lia. rewrite <- app_assoc.
+    fold (curof p (bytes_of le 4 n ++ flat_map (fun n0 => bytes_of le 4 n0) r ++ rest)).
+    destruct (peek4_bytes p le n (flat_map (fun n0 => bytes_of le 4 n0) r ++ rest)) as (q & Hq & Hu); [change (256 ^ 4) with 4294967296 in Hn; lia|].
+    rewrite Hq, Hu. replace ((n =? 0) || (n =? 1)) with true by (specialize (Hb eq_refl); lia).
+    pose proof (advance_app p (bytes_of le 4 n) (flat_map (fun n0 => bytes_of le 4 n0) r ++ rest)) as A.
+    rewrite (bytes_of_length le 4) in A. change (N.of_nat 4) with 4 in A. rewrite A.
+    specialize (IH fuel (p + 4) rest HF' ltac:(cbn [length] in Hf; lia)).
+    replace (p + N.of_nat (S (length r)) * 4) with (p + 4 + N.of_nat (length r) * 4) by lia. exact IH.
+Qed.
+
 Lemma string_bytes_app (s d : bytes) : firstn (N.to_nat (nlen s)) (s ++ d) = s.
 Proof. unfold nlen. rewrite Nat2N.id. rewrite firstn_app, Nat.sub_diag, firstn_all. cbn. apply app_nil_r. Qed.
 
@@ -223,7 +283,7 @@ Proof.
   - (* array *)
     rewrite wfb_arr in Hw. apply andb_true_iff in Hw. destruct Hw as [Hd Hw].
     apply andb_true_iff in Hw. destruct Hw as [Hw Hws]. apply andb_true_iff in Hw. destruct Hw as [Hty Hsz].
-    cbn [wire_ok] in Hk. apply andb_true_iff in Hk. destruct Hk as [Hk Hkall]. apply andb_true_iff in Hk. destruct Hk as [Hk Hnf].
+    cbn [wire_ok] in Hk. apply andb_true_iff in Hk. destruct Hk as [Hk Hkall].
     apply andb_true_iff in Hk. destruct Hk as [Hal1 Hal2]. apply N.eqb_eq in Hal1.
     assert (Hal : spec_align et = 1 \/ spec_align et = 2 \/ spec_align et = 4 \/ spec_align et = 8) by lia.
     cbn [ty_of_val]. rewrite vb_array by exact Hnz. rewrite enc_arr in *. cbv zeta in *. fold (arr_start pos et) in *.
@@ -250,7 +310,38 @@ Proof.
       { cbn [wfsb] in Hws. apply andb_true_iff in Hws. destruct Hws as [Hw0 _]. pose proof (enc_nonempty le v0 _ _ Hw0). subst payload. cbn [encs]. rewrite nlen_app. lia. }
       replace (nlen payload =? 0) with false by lia.
       replace (DBUS_MAXIMUM_ARRAY_LENGTH <? nlen payload) with false by (change DBUS_MAXIMUM_ARRAY_LENGTH with 67108864; lia).
-      apply negb_true_iff in Hnf. rewrite Hnf.
+      destruct (ty_is_fixed et) eqn:Hfixed.
+      { (* fast path: fixed-size elements *)
+        destruct et as [c| | | | ]; cbn [ty_is_fixed] in Hfixed; try discriminate.
+        assert (Hw0 : wfb le (depth + 1) (arr_start pos (TBasic c)) v0 = true).
+        { cbn [wfsb] in Hws. apply andb_true_iff in Hws. destruct Hws as [Hw0 _]. exact Hw0. }
+        assert (Ht0 : ty_of_val v0 = TBasic c).
+        { cbn [forallb] in Hty. apply andb_true_iff in Hty. destruct Hty as [Ht0 _]. apply ty_eqb_eq in Ht0. exact Ht0. }
+        assert (Hfsz : exists sz, fixed_size c = Some sz).
+        { destruct v0 as [c' n|c' s0| | | | ]; cbn [ty_of_val] in Ht0; try discriminate; inversion Ht0; subst c'.
+          - cbn [wfb] in Hw0. apply andb_true_iff in Hw0. destruct Hw0 as [_ Hw0]. destruct (fixed_size c) as [sz|]; [eexists; reflexivity|discriminate].
+          - exfalso. cbn [wfb] in Hw0. apply andb_true_iff in Hw0. destruct Hw0 as [_ Hw0].
+            destruct (c =? 115) eqn:E1; [apply N.eqb_eq in E1; subst c; vm_compute in Hfixed; discriminate|].
+            destruct (c =? 111) eqn:E2; [apply N.eqb_eq in E2; subst c; vm_compute in Hfixed; discriminate|].
+            destruct (c =? 103) eqn:E3; [apply N.eqb_eq in E3; subst c; vm_compute in Hfixed; discriminate|discriminate]. }
+        destruct Hfsz as [sz Hfsz]. destruct (fixed_tables c sz Hfsz) as (_ & Hta & Hs).
+        assert (Hsa : spec_align (TBasic c) = sz) by (cbn [spec_align]; rewrite Hfsz; reflexivity).
+        assert (Hstart : arr_start pos (TBasic c) mod sz = 0).
+        { unfold arr_start. rewrite Hsa. apply aligned_after_pad. exact Hs. }
+        destruct (fixed_elems le c sz Hfsz Hfixed (v0 :: vs') (depth + 1) _ Hstart Hws Hty) as (E1 & E2 & E3 & E4).
+        subst payload. rewrite Hsa at 1.
+        replace (negb (nlen (encs le (v0 :: vs') (arr_start pos (TBasic c))) mod sz =? 0)) with false
+          by (rewrite E2; destruct Hs as [-> | [-> | [-> | -> ]]]; lia).
+        destruct (c =? DBUS_TYPE_BOOLEAN) eqn:Eb.
+        - change DBUS_TYPE_BOOLEAN with 98 in Eb. apply N.eqb_eq in Eb. subst c.
+          assert (sz = 4) by (cbn in Hfsz; congruence). subst sz.
+          rewrite E1 at 2. change (N.to_nat 4) with 4%nat.
+          rewrite E2. rewrite <- E3.
+          rewrite (bool_loop le (nums_of (v0 :: vs')) _ (arr_start pos (TBasic 98)) rest E4) by (rewrite E3; lia).
+          cbn [curof cpos]. rewrite N.eqb_refl.
+          rewrite !nlen_app, !nlen_zeros, (bytes_of_length le 4). rewrite E2, E3. cur_eq. unfold arr_start. rewrite ?Hsa. lia.
+        - rewrite advance_app. cbn [curof cpos]. rewrite N.eqb_refl.
+          rewrite !nlen_app, !nlen_zeros, (bytes_of_length le 4). cur_eq. unfold arr_start. rewrite ?Hsa. lia. }
       cbn [height] in Hh. fold (heights (v0 :: vs')) in Hh.
       subst payload.
       rewrite (vb_elems_encs le et (v0 :: vs') IH d depth (S (N.to_nat (nlen (encs le (v0 :: vs') (arr_start pos et))))) (arr_start pos et) rest
